@@ -180,6 +180,10 @@ def extra_cases(tier):
         two_role = ["associatedParty", None, {}, [["references", "id0", {}, []], ["references", "id1", {}, []], ["role", "r", {}, []]]]
         parts = [referenced("associatedParty", 0, v0, with_role=True), referenced("associatedParty", 1, v1, with_role=True), two_role]
         yield f"two-refs-one-parent-role/{v0}{v1}", skeleton(parts), None
+    # a references value that equals an id only after trimming is a dangling reference like any other
+    for pad in ("id0 ", " id0", "id0\n", "ID0"):
+        parts = [referenced("creator", 0, 1), referencing("metadataProvider", "id0"), referencing("contact", pad)]
+        yield f"dangling/near-miss/{pad!r}", skeleton(parts), "dangling"
     # the duplicated id sits on a referencing element itself
     parts = [referenced("creator", 0, 0), ["contact", None, {"id": "id0"}, [["references", "id0", {}, []]]]]
     yield "dup/on-referencing-element", skeleton(parts), "duplicate"
